@@ -1,6 +1,7 @@
 package main
 
 import (
+	"go/types"
 	"strings"
 
 	"golang.org/x/tools/go/ssa"
@@ -297,6 +298,28 @@ func c14r3(r *R) {
 	he2 := callsIn(w, "(*certwatcher.CertWatcher).handleEvent")
 	if ow.Check(len(he2) == 1, "Watch does not dispatch to handleEvent exactly once per iteration") {
 		ow.Check(inLoop(he2[0].Block()), "handleEvent is not called in the watch loop")
+		// every event is handled as it was received: the argument is the value just received from the Events channel
+		// (not a merged or remembered one), in the case that received it
+		arg := c.ExprAt(callOf(he2[0]).Args[1], he2[0].Block())
+		recvd := false
+		if ex, ok := callOf(he2[0]).Args[1].(*ssa.Extract); ok {
+			if sel, ok := ex.Tuple.(*ssa.Select); ok && ex.Index >= 2 && sel.Block() != nil {
+				k := ex.Index - 2
+				n := 0
+				for _, st := range sel.States {
+					if st.Dir == types.RecvOnly {
+						if n == k {
+							recvd = strings.HasSuffix(c.Expr(st.Chan), ".watcher.Events")
+						}
+						n++
+					}
+				}
+			}
+		}
+		ow.AtI(he2[0]).Check(recvd, "handleEvent is given %s, want the event just received from watcher.Events: events folded together or handled later lose the name of the file they were about", arg)
+		for _, g := range c.guardStrs(he2[0].Block()) {
+			ow.Check(strings.HasPrefix(g[1:], "select") || strings.HasPrefix(g[1:], "(select") || strings.Contains(g, "select"), "handling an event is additionally conditional on %s", g)
+		}
 	}
 	// Start adds both paths and starts Watch
 	stt := c.Method("pkg/certwatcher", "CertWatcher", "Start")
